@@ -27,7 +27,10 @@ func runC09(c *Ctx) {
 	c.Rule("C09.S", "the asserted identity replaces, never joins, client input", 2)
 	c.Rule("C09.V", "provenance of the asserted identity", 6)
 	c.Rule("C09.D", "identity write and credential strip dominate the handler-chain invocation under their flags", 5)
-	c.Rule("C09.N", "nothing downstream re-introduces or bypasses the filtered headers", 6)
+	c.Rule("C09.N", "nothing downstream re-introduces or bypasses the filtered headers", 7)
+	// the headers the shim injects into pushed messages are those of the request that carries
+	// the push (= C11.J), not a snapshot taken when the session was opened for someone else
+	c.Borrow(runC11, "C11.J", "C09.N", func(k string) bool { return k == "data:injected-values-are-request-headers" })
 	canonUID := canonicalHeaderKey(hdrUserID)
 
 	f := c.need(p, "C09.S", "agent.forwardRequest")
